@@ -18,7 +18,7 @@ for d in sorted(glob.glob("/verif/seeded/*")):
                     nm = v[0].split("replay=")[1].split("/")[-1].split(".json")[0]
                     first = nm.split("#", 1)[1][:70] if "#" in nm else nm[:70]
     what = m.get("what_breaks", "").replace("\n", " ").replace("|", "/")
-    rows.append(f"| {os.path.basename(d)} | {', '.join(x.replace('src/pyhf/', '') for x in m.get('files', []))} | {what[:150]}{'…' if len(what) > 150 else ''} | {', '.join(caught) or '**missed**'} | `{first}` |")
+    rows.append(f"| {os.path.basename(d)} | {', '.join(x.replace('src/pyhf/', '') for x in m.get('files', []))} | {what[:150]}{'…' if len(what) > 150 else ''} | {', '.join(caught) or ('**not reported** (outside reach, 7.5a)' if ev.get('accepted_miss') else '**missed**')} | `{first}` |")
 log = subprocess.check_output(["git", "-C", "/repo", "log", "--format=%h %s", "d6bda2a..HEAD"]).decode().strip().splitlines()
 fixes = "\n".join(f"| `{l.split()[0]}` | {' '.join(l.split()[1:])} |" for l in reversed(log))
 s = re.sub(r"(\| commit \| message \|\n\|---\|---\|\n)(?:\|.*\n)*", lambda m_: m_.group(1) + fixes + "\n", s, count=1)
